@@ -1,5 +1,89 @@
 (* extra.ml: line-protocol entries for the hand-written models *)
 open Fnum
+open Datatypes
+
+let pos = ref 0
+let next (a : string array) : string = let s = a.(!pos) in incr pos; s
+let get_num a = num (next a)
+let get_bool a = boolean (next a)
+let get_int a = int_of_string (next a)
+let get_pairs a : (float * float) list =
+  let k = get_int a in
+  Stdlib.List.init k (fun _ -> let f = get_num a in let d = get_num a in (f, d))
+let get_opt a : float option = let s = next a in if s = "None" then None else Some (num s)
+
+let out_list (name : string) (l : float list) : string =
+  "@" ^ name ^ " " ^ string_of_int (Stdlib.List.length l) ^
+  Stdlib.String.concat "" (Stdlib.List.map (fun x -> " " ^ out_num x) l)
+let out_pairs (name : string) (l : (float * float) list) : string =
+  "@" ^ name ^ " " ^ string_of_int (Stdlib.List.length l) ^
+  Stdlib.String.concat "" (Stdlib.List.map (fun (f, d) -> " " ^ out_num f ^ " " ^ out_num d) l)
+let out_regimes (name : string) (l : Framework.regime list) : string =
+  "@" ^ name ^ " " ^ string_of_int (Stdlib.List.length l) ^
+  Stdlib.String.concat "" (Stdlib.List.map (fun r -> " " ^ Dispatch_regime.out_regime r) l)
+let cat = Stdlib.String.concat " "
+
+let get_params a : float SlurryCalc.sparams =
+  let dp = get_num a in let eps = get_num a in let nu = get_num a in let rhol = get_num a in
+  let d50 = get_num a in let cv = get_num a in let rhos = get_num a in let rhoi = get_num a in
+  let mi = get_int a in
+  { SlurryCalc.p_Dp = dp; p_eps = eps; p_nu = nu; p_rhol = rhol; p_D50 = d50; p_Cv = cv; p_rhos = rhos;
+    p_rhoi = rhoi; p_max_index = nat_of_int mi }
+
+let out_ldv name (c : float SlurryCalc.ldv_curves) =
+  cat [out_list (name ^ ".Cv") c.SlurryCalc.lc_Cv; out_list (name ^ ".vls") c.SlurryCalc.lc_vls;
+       out_list (name ^ ".il") c.SlurryCalc.lc_il; out_list (name ^ ".Erhg") c.SlurryCalc.lc_Erhg;
+       out_list (name ^ ".im") c.SlurryCalc.lc_im]
+
 let dispatch (name : string) (a : string array) : string =
+  pos := 0;
   match name with
+  | "Fracs.create_fracs" ->
+    let g = get_pairs a in
+    let dp = get_num a in let nu = get_num a in let rhol = get_num a in let rhos = get_num a in
+    let nf = get_int a in
+    out_pairs "GSD" (Fracs.create_fracs fN g dp nu rhol rhos (z_of_int nf))
+  | "Fracs.get_dx" ->
+    let g = get_pairs a in let f = get_num a in out_num (Fracs.get_dx fN g f)
+  | "Fracs.generate_GSD" ->
+    let g = get_pairs a in
+    let d50 = get_num a in let dp = get_num a in let nu = get_num a in let rhol = get_num a in
+    let rhos = get_num a in let r15 = get_opt a in let r85 = get_opt a in
+    out_pairs "GSD" (Fracs.generate_GSD fN g d50 dp nu rhol rhos r15 r85)
+  | "Graded.dict" ->
+    let sf = get_bool a in let sq = get_bool a in
+    let g = get_pairs a in
+    let vls = get_num a in let dp = get_num a in let eps = get_num a in let nu = get_num a in
+    let rhol = get_num a in let rhos = get_num a in let cv = get_num a in
+    let cvt = get_bool a in let refrac = get_bool a in
+    let r = Graded.coq_Erhg_graded_dict fN sf sq g vls dp eps nu rhol rhos cv cvt refrac in
+    cat [out_list "ims" r.Graded.g_ims; out_num r.Graded.g_im_x; out_list "ds" r.Graded.g_ds;
+         out_list "dxs" r.Graded.g_dxs; out_list "fracs" r.Graded.g_fracs; out_pairs "GSD" r.Graded.g_GSD;
+         out_num r.Graded.g_dmin; out_num r.Graded.g_X; out_num r.Graded.g_mu_x; out_num r.Graded.g_nu_x;
+         out_num r.Graded.g_rhox; out_num r.Graded.g_Rsd_x; out_num r.Graded.g_Cv_x; out_num r.Graded.g_Cv_r;
+         out_num r.Graded.g_Erhg_x; out_num r.Graded.g_Erhg; out_num r.Graded.g_il]
+  | "Slurry.curves" ->
+    let sf = get_bool a in let sq = get_bool a in
+    let p = get_params a in let g = get_pairs a in
+    let c = SlurryCalc.generate_curves fN sf sq p g in
+    let e = c.SlurryCalc.c_Erhg and i = c.SlurryCalc.c_im in
+    cat [out_list "vls" c.SlurryCalc.c_vls;
+         out_list "E.il" e.SlurryCalc.ec_il; out_list "E.Cvs_Erhg" e.SlurryCalc.ec_Cvs_Erhg;
+         out_list "E.FB" e.SlurryCalc.ec_FB; out_list "E.SB" e.SlurryCalc.ec_SB; out_list "E.He" e.SlurryCalc.ec_He;
+         out_list "E.Ho" e.SlurryCalc.ec_Ho; out_regimes "E.Cvs_regime" e.SlurryCalc.ec_regime;
+         out_list "E.Cvs_from_Cvt" e.SlurryCalc.ec_Cvs_from_Cvt; out_list "E.Cvt_Erhg" e.SlurryCalc.ec_Cvt_Erhg;
+         out_list "E.graded_Cvs_Erhg" e.SlurryCalc.ec_graded_Cvs; out_list "E.graded_Cvt_Erhg" e.SlurryCalc.ec_graded_Cvt;
+         out_list "I.il" i.SlurryCalc.ic_il; out_list "I.Cvs_im" i.SlurryCalc.ic_Cvs_im; out_list "I.FB" i.SlurryCalc.ic_FB;
+         out_list "I.SB" i.SlurryCalc.ic_SB; out_list "I.He" i.SlurryCalc.ic_He; out_list "I.ELM" i.SlurryCalc.ic_ELM;
+         out_list "I.Ho" i.SlurryCalc.ic_Ho; out_list "I.Cvt_im" i.SlurryCalc.ic_Cvt_im;
+         out_list "I.graded_Cvs_im" i.SlurryCalc.ic_graded_Cvs_im; out_list "I.graded_Cvt_im" i.SlurryCalc.ic_graded_Cvt_im;
+         out_ldv "LDV" c.SlurryCalc.c_LDV; out_ldv "LDV85" c.SlurryCalc.c_LDV85]
+  | "Slurry.point" ->
+    let sf = get_bool a in let sq = get_bool a in
+    let p = get_params a in let g = get_pairs a in let vls = get_num a in
+    cat [out_num (SlurryCalc.il fN p vls); out_num (SlurryCalc.coq_Erhg fN sf sq p g vls); out_num (SlurryCalc.im fN sf sq p g vls)]
+  | "Slurry.scalars" ->
+    let p = get_params a in let g = get_pairs a in
+    cat [out_num (SlurryCalc.coq_Rsd fN p); out_num (SlurryCalc.rhom fN p); out_num (SlurryCalc.coq_Cvi fN p);
+         out_num (SlurryCalc.coq_Dmean fN g)]
   | _ -> raise Not_found
